@@ -85,10 +85,22 @@ def c09_oracle(script, result):
                     rest = {a: b for a, b in cur.items() if a != tid}
                     if tid not in cur or rest != shadow:
                         return ("C09:add_track:not-found", "after add_track(%d) the track is not found or another track changed" % tid, i)
+                    if all(sp[1] is None and sp[2] is None for sp in op[2]) and (cur[tid][2] != () or cur[tid][5] != ()):
+                        return ("C09:add:attr-only-creates-class",
+                                "a track built from attribute-only observations has observations %r / classes %r" % (cur[tid][2], cur[tid][5]), i)
             elif not unchanged():
                 return ("C09:build:store-changed", "a failing external build changed the store", i)
         elif k == "AD":
             tid = op[1]
+            if ok and op[2][1] is None and op[2][2] is None and tid in cur:
+                # neither attributes nor feature: attribute-only update. The observations of every class and the set of
+                # classes (get_observations(c) for all c, get_feature_classes()) are as before (none for a new track)
+                b_obs, b_fc = (shadow[tid][2], shadow[tid][5]) if tid in shadow else ((), ())
+                if cur[tid][2] != b_obs or cur[tid][5] != b_fc:
+                    return ("C09:add:attr-only-creates-class",
+                            "add(%d, class %d, None, None, ..) on a %s track changed the observations / classes: observations %r -> %r, "
+                            "get_feature_classes %r -> %r" % (tid, op[2][0], "stored" if tid in shadow else "freshly created",
+                                                              b_obs, cur[tid][2], b_fc, cur[tid][5]), i)
             if tid in shadow:
                 rest = {a: b for a, b in cur.items() if a != tid}
                 if tid not in cur or rest != {a: b for a, b in shadow.items() if a != tid}:
@@ -196,7 +208,8 @@ ALPHABET = [
     ("BA", 2, [(1, 7, None, None)]),                 # poisoned observation: the build fails
     ("AD", 1, (1, 4, None, None)),
     ("AD", 2, (2, 6, 2, (2, False))),
-    ("AD", 1, (1, None, None, None)),
+    ("AD", 1, (1, None, None, None)),                # attribute-only add (no update): class 1 may be absent
+    ("AD", 2, (3, None, None, (1, False))),          # attribute-only add with an update, on a class track 2 may lack
     ("AD", 1, (2, 4, None, (1, True))),              # failing attribute update
     ("AD", 2, (1, 7, None, None)),                   # optimise fails (poison)
     ("FE", [1]),
@@ -453,7 +466,7 @@ def run(chk):
         "distinct_nontrivial": len(nontrivial),
         "rule": "operation sequences over add_track (through the builder), add, fetch_tracks, merge_owned, merge_external, "
                 "merge_external_noblock+get, lookup, find_usable, clear, shard_stats, new_track; after EVERY operation the returned value, the "
-                "notification count and all shards are compared. thorough: all 27^3 sequences of length 3 over the alphabet x shards 1..3, all length-2 sequences over three LARGE-id renamings (255..2^64-2) x shards 2..8, and 40 "
+                "notification count and all shards are compared. thorough: all 28^3 sequences of length 3 over the alphabet x shards 1..3, all length-2 sequences over three LARGE-id renamings (255..2^64-2) x shards 2..8, and 40 "
                 "random sequences of 100-400 operations (ids 0..8 mixed with large ids, classes 1..4, shards 1..8, sparse fail plans, draining and poisoned observations); quick: all sequences of length 2 over small ids x shards 1..3 and over two large-id renamings x shards 3,5,6,7 (+8) "
                 "(+shard_stats), a seeded sample of 2500 length-3 sequences, 8 random sequences up to 400 operations. "
                 "non-trivial = the sequence contains a failing operation (duplicate id, missing id, same track, callback failure); distinct by script",
